@@ -249,7 +249,8 @@ class TableBuilder:
                 self._exec(fn, c, env)
         elif k == "DeclStmt":
             for d in n.get("decls", []):
-                env[d["decl"]] = self._ev(fn, d["init"], env) if d.get("init") is not None else None
+                if "decl" in d:
+                    env[d["decl"]] = self._ev(fn, d["init"], env) if d.get("init") is not None else None
         elif k in ("ForStmt", "WhileStmt"):
             if n.get("init") is not None:
                 self._exec(fn, n["init"], env)
@@ -795,7 +796,7 @@ class StateProp2(StateProp):
                         items = {(it[0], _kill(it[1], d), it[2]) for it in items}
                 elif k == "DeclStmt":
                     for d in n.get("decls", []):
-                        if d.get("init") is not None:
+                        if d.get("init") is not None and "decl" in d:
                             items = self._bind(fn, d["decl"], d["init"], items, special)
                 elif k == "CXXMemberCallExpr":
                     new = set()
@@ -1572,7 +1573,8 @@ def _atts_aliases(fn, atts_decl):
                 while src is not None and src.get("k") in _CASTS and src.get("c"):
                     src = src["c"][0]
                 if (src is not None and src.get("k") == "DeclRefExpr" and src["ref"].get("decl") in al
-                        and d["decl"] not in al and (d.get("t") or "").replace(" ", "") == "constchar**"):
+                        and "decl" in d and d["decl"] not in al
+                        and (d.get("t") or "").replace(" ", "") == "constchar**"):
                     al.add(d["decl"])
                     changed = True
     return al
@@ -1608,7 +1610,7 @@ def _atts_reads(fn, atts_decl):
                 tgt, src = c[0]["ref"]["decl"], c[1]
         elif n.get("k") == "DeclStmt":
             for d in n.get("decls", []):
-                if d.get("init") is not None:
+                if d.get("init") is not None and "decl" in d:
                     how = from_atts(d["init"])
                     if how:
                         reads.append((d["decl"], n, how))
